@@ -357,6 +357,8 @@ def run(res, tier):
                            'SUBSCRIBE:/*/*/*1 still matches it, and nothing re-sends the node — the mirror misses a matching node at quiescence' % g.q)
     if n_la < 2:
         raise AnalysisBroken('LEAVE-ALL: only %d places raise NODE_CHANGE_FLAG_ISBEINGREMOVED in StorageReflectSession' % n_la)
+    from .C05 import clause_lookup_rules
+    clause_lookup_rules(res, fx, 'DELIVERY')        # the snapshot and the mark traversals use the literal-lookup fast path: it must name the nodes the patterns match
     match_recheck_rule(res, fx, 'DELIVERY')       # the initial fetch after a subscription uses the same traversal: conspiring patterns put unsubscribed nodes into the mirror
     res.explanation = ('Static decision of the structural half of subscriber convergence: payload writes, attachment and removal of nodes are each paired with the notification that tells subscribers, in the order '
                        'that keeps the per-node subscriber marks valid while the notification walks them; the subscription table and the per-node reference marks are changed together with opposite, path-identical '
